@@ -327,11 +327,17 @@ def run(ck, w):
         pe = [e for e in it.events if e.bb in it.live and e.name.endswith("VecDeque::<T, A>::pop_front") and
               any("entry_deque" in (x[2] if x[0] in ("param", "upvar") else ()) for x in flow.origins_x(lib, it, e.args[0]))]
         vis = [e for e in it.events if e.bb in it.live and e.name == "source::Iter::visit_next_directory"]
-        if pe and vis:
-            # visit happens only on the None arm of entry_deque.pop_front()
+        def on_queue(e_):
+            return any("entry_deque" in (x[2] if x[0] in ("param", "upvar") else ()) for x in flow.origins_x(lib, it, e_.args[0]))
+        emp = [e for e in it.events if e.bb in it.live and e.args and re.search(r"VecDeque::<T, A>::is_empty$", e.name) and on_queue(e)]
+        if (pe or emp) and vis:
+            # visit happens only where the entry queue is known to be empty: the None arm of entry_deque.pop_front()
+            # (match, let-else or `?`), or the true edge of entry_deque.is_empty()
             ed = set()
-            for (sb, tested, arms, other) in flow.discriminant_switches(it, flow.result_carriers(it, pe[0].dest["l"])):
-                ed.add((sb, arms.get(0, other)))
+            for e in pe:
+                ed |= flow.none_edges(it, e)[0]
+            for e in emp:
+                ed |= rules.bool_switch_edges(it, e, True)
             if ed and all(it.must_pass_edges(ed, v.bb) for v in vis):
                 ck.ok(o)
             else:
